@@ -193,6 +193,19 @@ class Gen:
         tail = r.choice(["O", "CO", "F"]) if r.random() < 0.6 else "{[<] [<]C(F)C[>]; [>]Br []}" + self.dist(r.choice([80, 150]))
         return r.choice(["N", "C", "OC"]) + "{[<] " + unit + second + "; " + ends + " [>]}" + self.dist(r.choice([80, 150])) + tail
 
+    def chain_stopper(self):
+        """a mono-functional unit listed among the REPEAT units: a growth step may consume the last open descriptor (the 'premature end' of
+        the growth loop), at any step, long before the drawn mass is reached"""
+        r = self.r
+        a, b, c = r.choice([("<", ">", ">"), (">", "<", "<"), ("$", "$", "$")])
+        unit = r.choice(["{a}CC{b}", "{a}C(C)C{b}", "{a}CC(F){b}", "{a}COC{b}"]).format(a=self.bd(a), b=self.bd(b, "", self.weight()))
+        stopper = self.bd(c, "", r.choice([0.25, 0.5, 1, 2])) + r.choice(["Cl", "Br", "OC", "N(C)C"])
+        second = r.choice(["", "", ", " + r.choice(["{a}C(N)C{b}", "{a}CC(=O){b}"]).format(a=self.bd(a), b=self.bd(b))])
+        cap = self.bd(c) + r.choice(["[H]", "O", "S"])
+        mean = r.choice([150, 300, 400])
+        dist = f"|gauss({self.num(mean)},{self.ws()}{self.num(20)})|" if r.random() < 0.6 else f"|uniform({self.num(mean // 2)},{self.ws()}{self.num(mean)})|"
+        return r.choice(["F", "C", "CO", "N"]) + "{" + self.bd(a) + " " + unit + second + ", " + stopper + "; " + cap + " []}" + dist
+
     def step_growth(self):
         r = self.r
         aa = r.choice(["[<]C(=O)CCCCC(=O)[<]", "[<]C(=O)c1ccc(cc1)C(=O)[<]", "[<]OCCO[<]"])
@@ -254,7 +267,7 @@ class Gen:
         return self.r.choice(["CCO", "CCCCC", "c1ccccc1", "OCC(O)CO", "CC(=O)O", "[NH4+]", "C1CCCCC1"])
 
     ARCHETYPES = ["homopolymer", "random_copolymer", "block_copolymer", "alternating", "step_growth", "star", "graft",
-                  "end_initiated", "two_ids", "defective_list", "markov_copolymer", "list_handover", "branched_list_endgroup", "mixed_arms_handover"]
+                  "end_initiated", "two_ids", "defective_list", "markov_copolymer", "list_handover", "branched_list_endgroup", "mixed_arms_handover", "chain_stopper"]
 
     def molecule(self, archetype=None):
         a = archetype or self.r.choice(self.ARCHETYPES)
